@@ -892,8 +892,8 @@ def scale_cases(tier, rng):
     generator per node: no recursion may build up), wide fan-in / fan-out under 2..8 workers, long cycles (50+) through
     task_dep / setup / calc_dep / file_dep / group edges, also at the end of a long chain or under a common parent, and
     layered random DAGs.  Too large for the Lean driver (acceptor and monitor are polynomial of degree 3-4): these cases
-    run under the Python transcription of the monitor plus an outcome oracle, and are counted
-    (`scale:python-monitor-only`)."""
+    run under an outcome oracle instead of the acceptor; up to LEAN_MON_MAX_N tasks the Lean monitor judges them
+    (`scale:lean-monitor(acceptor-not-asked)`), beyond that the Python transcription alone (`scale:python-monitor-only`)."""
     quick = tier == 'quick'
     out = []
 
@@ -968,7 +968,9 @@ def scale_cases(tier, rng):
     return out
 
 
-LEAN_MAX_N = 30        # beyond this the Lean driver is not asked (its acceptor / monitor take minutes at 100 tasks)
+LEAN_MAX_N = 30        # beyond this the Lean ACCEPTOR (`{"model":"run","op":"accept"}`) is not asked (minutes at 100 tasks)
+LEAN_MON_MAX_N = 400   # the Lean C09 MONITOR judges up to this many tasks since wave 5 (tabulated edges + work-list cycle
+                       # search, `cycleTasksFast = cycleTasks`: 0.1 s at 100 tasks, 0.5 s at 300, 20 s at 1500)
 
 
 def scale_oracle(case, obs):
@@ -1304,7 +1306,7 @@ def judge(case, obs, a_run, a_c09, st, shrink_left):
         st.count('family:selection-raises(model-not-asked)')
     elif has_delayed(case):
         st.count('delayed-creators:python-monitor-only(model-not-asked)')
-    elif big_case:
+    elif big_case and a_c09 is None:
         st.count('scale:python-monitor-only(model-not-asked)')
     elif a_c09 is None or 'error' in a_c09:
         st.count('driver_unavailable')
@@ -1320,8 +1322,11 @@ def judge(case, obs, a_run, a_c09, st, shrink_left):
                 st.count('cycle-through-fail-delivery:ONLY-through-it')
         if a_c09.get('cutShort'):
             st.count('run:cut_short_by_failure')
-        m = a_c09.get('model') or {}
-        st.count('model_default_schedule:halt=%s' % m.get('halt'))
+        if big_case:
+            st.count('scale:lean-monitor(acceptor-not-asked)')
+        else:
+            m = a_c09.get('model') or {}
+            st.count('model_default_schedule:halt=%s' % m.get('halt'))
     failed = [k for k in KEYS if not py.get(k, True) or (lean is not None and not lean.get(k, True))]
     used = 0
     if failed:
@@ -1347,7 +1352,7 @@ def judge(case, obs, a_run, a_c09, st, shrink_left):
         bad2 = [k for k in KEYS if not p2.get(k, True)]
         if bad2:
             l2 = None
-            if not has_raise(small) and not has_delayed(small) and small.get('model', {}).get('n', 0) <= LEAN_MAX_N:
+            if not has_raise(small) and not has_delayed(small) and small.get('model', {}).get('n', 0) <= LEAN_MON_MAX_N:
                 try:
                     a2 = common.drv_batch([c09_request(small, o2)])[0]
                     l2 = a2.get('monitor')
@@ -1534,11 +1539,21 @@ def eval_batch(batch):
         pairs.append((c, o))
     plain = [(c, o) for c, o in pairs if not has_raise(c) and not has_delayed(c) and c['model']['n'] <= LEAN_MAX_N]
     a_run = runlib.ask_model(plain)
+    # the monitor alone also judges the larger cases (no acceptor, no default-schedule simulation of the model there)
+    mon = plain + [(c, o) for c, o in pairs if not has_raise(c) and not has_delayed(c)
+                   and LEAN_MAX_N < c['model']['n'] <= LEAN_MON_MAX_N]
+
+    def mon_request(c, o):
+        r = c09_request(c, o)
+        if c['model']['n'] > LEAN_MAX_N:
+            r['noSimulate'] = True
+        return r
     try:
-        a_c09 = common.drv_batch([c09_request(c, o) for c, o in plain]) if plain else []
+        a_c09 = common.drv_batch([mon_request(c, o) for c, o in mon]) if mon else []
     except Exception as ex:  # noqa
-        a_c09 = [{'error': str(ex)[:200]} for _ in plain]
-    answers = {id(c): (r, p) for (c, _), r, p in zip(plain, a_run, a_c09)}
+        a_c09 = [{'error': str(ex)[:200]} for _ in mon]
+    answers = {id(c): (None, p) for (c, _), p in zip(mon, a_c09)}
+    answers.update({id(c): (r, p) for (c, _), r, p in zip(plain, a_run, a_c09)})
     shrink_left = batch.get('shrink_s', 15.0)
     for c, o in pairs:
         st.case({'case': runlib.render(c).split('\n'), 'schedule': o.get('schedule')}, runlib.nontrivial(c))
